@@ -138,6 +138,17 @@ def reuse_case():
         b = [i for i in introspection.getInterfacesFromXML(xml, True) if i.name == name]
         if len(b) != 1 or b[0] is known or 'New' not in b[0].methods:
             return 'replacement requested but the parsed definition is %r' % (b and sorted(b[0].methods))
+        # a document with several interfaces, the known one first / in the middle: the others are still parsed
+        for order in ((0, 1, 2), (1, 0, 2), (1, 2, 0)):
+            extra = [interface.DBusInterface('org.verif.Fresh%d' % k, interface.Method('F%d' % k, arguments='i'), noRegister=True) for k in (1, 2)]
+            ifs = [other] + extra
+            xml = introspection.generateIntrospectionXML('/obj', {'/obj': FakeObject([ifs[i] for i in order])})
+            got = {i.name: i for i in introspection.getInterfacesFromXML(xml, False)}
+            for e in extra:
+                if e.name not in got or sorted(got[e.name].methods) != sorted(e.methods):
+                    return 'a document listing %r with %s already known: interface %s came back as %r' % ([ifs[i].name for i in order], name, e.name, got.get(e.name) and sorted(got[e.name].methods))
+            if got.get(name) is not interface.DBusInterface.knownInterfaces.get(name):
+                return 'the known interface was not reused in a multi-interface document'
     finally:
         interface.DBusInterface.knownInterfaces.pop(name, None)
     return None
